@@ -371,3 +371,44 @@ pub fn c16_world(seed: u64, corpus: &[Program]) -> World {
     w.note = "seeded combination".into();
     w
 }
+
+
+// ---------------------------------------------------------------- directed delivery worlds
+
+/// Number of directed delivery variants per program.
+pub const DELIVERY_VARIANTS: usize = 14;
+
+/// The v-th directed delivery of program `pi`: chunk boundaries at every byte / every 2nd, 3rd, 7th byte,
+/// `Interrupted` on every other call, a sink that takes 1 or 2 bytes per call, hard errors at the
+/// first, middle and last byte of the input and of the output.
+pub fn delivery_world(prop: &str, corpus: &[Program], pi: usize, v: usize) -> World {
+    let p = &corpus[pi];
+    let mut j = job_of(p);
+    let n = p.source.len() as u64;
+    let fixed = |k: u32| StreamSpec { chunks: ChunkSpec::Fixed(k), eintr: EintrSpec::Never, error_at: None };
+    let intr = |k: u32, seed: u64| StreamSpec { chunks: ChunkSpec::Fixed(k), eintr: EintrSpec::Seeded { seed, den: 2 }, error_at: None };
+    match v {
+        0 => j.reader = fixed(1),
+        1 => j.reader = fixed(2),
+        2 => j.reader = fixed(3),
+        3 => j.reader = fixed(7),
+        4 => j.reader = intr(1, 11 + pi as u64),
+        5 => j.writer = fixed(1),
+        6 => j.writer = fixed(2),
+        7 => j.writer = intr(3, 29 + pi as u64),
+        8 => {
+            j.reader = intr(2, 5 + pi as u64);
+            j.writer = intr(1, 7 + pi as u64);
+        }
+        9 => j.reader.error_at = Some(0),
+        10 => j.reader.error_at = Some(n / 2),
+        11 => j.reader.error_at = Some(n.saturating_sub(1)),
+        12 => j.writer.error_at = Some(0),
+        _ => j.writer.error_at = Some(200),
+    }
+    j.label = format!("{} delivery#{}", p.name, v);
+    let mut w = World::solo(prop, j);
+    w.seed = crate::rng::mix(0xDE11, (pi as u64) << 8 | v as u64);
+    w.note = format!("directed delivery variant {} of program {}", v, pi);
+    w
+}
